@@ -1,5 +1,7 @@
 package ocode
 
+import "github.com/HobbyOSs/gosk/pkg/cpu"
+
 //go:generate enumer -type=OcodeKind -json -text
 type OcodeKind int
 
@@ -215,4 +217,7 @@ const (
 type Ocode struct {
 	Kind     OcodeKind
 	Operands []string // 数値や変数名など
+	// BitMode is the BITS mode that was in force when the statement was emitted
+	// (0: not recorded, the code generator keeps its current mode).
+	BitMode cpu.BitMode
 }
